@@ -1,7 +1,7 @@
 (* C01 - Structured control flow is lowered to gotos without changing behaviour.
    This file contains only the statements; proofs live in Tr.v / Check.v / C01Proofs.v. *)
 From Coq Require Import List ZArith.
-From Pory Require Import Lexer Ast Parser Emitter Sem2 Tr Check C01Proofs ParseWf ProgWf.
+From Pory Require Import Lexer Ast Parser Emitter Sem2 SemTgt Tr Check C01Proofs ParseWf ProgWf RenderSim RenderCheck C01Final.
 
 (* PARTIAL (named so): source semantics = chunk-graph semantics, for every abstract game (St, exec, observers),
    every body, every run length, on every chunk graph that the verified relation checker accepts
@@ -36,3 +36,46 @@ Theorem accepted_bodies_are_scoped :
     parse_program autovars switches env_errors parse_format ts = Parser.Ok p -> all_scoped (bodies_of (tops p)).
 Proof. exact ProgWf.parse_program_scoped. Qed.
 Print Assumptions accepted_bodies_are_scoped.
+
+(* MAIN THEOREM (validated form): for every abstract game (state type, command behaviour, flag / var / trainer observers),
+   every body, both -optimize settings, marker modes and names: started at the script's entry label the emitted instruction
+   list performs exactly the command sequence of the structured source and finishes the same way - every finite run of
+   either is a prefix of a run of the other and they are equal once finished - provided the two executable validators accept
+   the model's own chunk graph and code (relation checker chk_block: soundness theorem check_tr_sound; render check
+   wf_render: ids, references, label uniqueness, no fall off the end), which the driver runs on every generated script.
+   Still assumed: the two label-lookup facts (find_label agrees with the position of the label in the graph). *)
+Theorem emit_script_correct_checked :
+  forall (St : Type) (exec : cmd -> St -> stepres St) (flag_set trainer_beaten : text -> St -> bool)
+         (cmp_var cmp_var_value : text -> text -> St -> comparison) (case_matches : text -> text -> St -> bool)
+         (mp : option text) (tl : list text) (name : text) (glob optimize : bool) (body : list stmt)
+         (w : wst) (code : list instr) (find_label : text -> option sstate) (fuel : nat),
+    emit_graph body = Ok w ->
+    emit_script mp tl name glob optimize body = Ok code ->
+    chk_block (finals w) (brk w) (org w) fuel body 0 (-1) = true ->
+    wf_render mp name (finals w) (order_of optimize (finals w)) code = true ->
+    scoped None None body ->
+    label_lookup_agrees St exec flag_set trainer_beaten cmp_var cmp_var_value case_matches (finals w) (brk w) (org w) find_label ->
+    label_lookup_scoped find_label ->
+    (forall n s, exists m,
+        run sfinal (sstep St exec flag_set trainer_beaten cmp_var cmp_var_value case_matches find_label) n (enter body Kstop) s =
+        run (@tfinal) (tstep St exec flag_set trainer_beaten cmp_var cmp_var_value case_matches code) m (jump code name) s) /\
+    (forall m s, exists n,
+        res_le (run (@tfinal) (tstep St exec flag_set trainer_beaten cmp_var cmp_var_value case_matches code) m (jump code name) s)
+               (run sfinal (sstep St exec flag_set trainer_beaten cmp_var cmp_var_value case_matches find_label) n (enter body Kstop) s)).
+Proof. exact C01Final.emit_script_correct_checked. Qed.
+Print Assumptions emit_script_correct_checked.
+
+(* lemma 3 alone: chunk graph = rendered instruction list, for ANY chunk order that passes the render check *)
+Theorem render_sim_checked :
+  forall (St : Type) (exec : cmd -> St -> stepres St) (flag_set trainer_beaten : text -> St -> bool)
+         (cmp_var cmp_var_value : text -> text -> St -> comparison) (case_matches : text -> text -> St -> bool)
+         mp tl name glob G order code,
+    render_chunks mp tl name glob G order = Ok code -> wf_render mp name G order code = true ->
+    (forall n s, exists m,
+        run (@gfinal) (gstep St exec flag_set trainer_beaten cmp_var cmp_var_value case_matches G) n (ggoto G 0) s =
+        run (@tfinal) (tstep St exec flag_set trainer_beaten cmp_var cmp_var_value case_matches code) m (jump code name) s) /\
+    (forall m s, exists n,
+        res_le (run (@tfinal) (tstep St exec flag_set trainer_beaten cmp_var cmp_var_value case_matches code) m (jump code name) s)
+               (run (@gfinal) (gstep St exec flag_set trainer_beaten cmp_var cmp_var_value case_matches G) n (ggoto G 0) s)).
+Proof. exact RenderCheck.render_sim_checked. Qed.
+Print Assumptions render_sim_checked.
